@@ -1,4 +1,4 @@
-"""Shared driver for the Mempool specification (C22, C26, C28).
+"""Shared driver for the Mempool specification (C22, C26, C27, C28, C29, C55).
 
   1. TLC prints the scenario's transaction universe (module MU_<uni>); the adapter builds and signs it on a real regtest node and
      reports each transaction's real fee / virtual size / weight, which the specification reads back through IOEnv (MP_MEASURE).
@@ -10,7 +10,7 @@
      (C22: INV, C26: SAFE) or, for C28, by asking the node itself for both verdicts from the same state (test-accept twin).
      An assertion inside a replayed step (CTxMemPool::check runs after every step) is a violation.
 """
-import collections, json, os, re
+import collections, hashlib, json, os, re
 import vflib
 
 SPEC = "Mempool"
@@ -18,7 +18,11 @@ OBS_INVARIANTS = {
     "C22": ["ObsChain", "ObsKnown", "ObsConsistent", "ObsNextBlockValid", "ObsLinks", "ObsTotals"],
     "C26": ["ObsReplacement", "ObsRejectNoEvict"],
     "C28": ["ObsTestPure", "ObsPolicyImpliesConsensus"],
+    "C27": ["ObsKnown", "ObsUsage", "ObsClusterLimits", "ObsMinFeeAboveEvicted", "ObsTruc", "ObsDust"],
+    "C29": ["ObsKnown", "ObsPkgShape", "ObsPkgGate", "ObsPkgNoDangling", "ObsPkgResults"],
+    "C55": ["ObsKnown", "ObsDumpOk", "ObsDumpOrder", "ObsLoadTruncated", "ObsLoadRoundTrip", "ObsLoadSafe"],
 }
+FINDING_C28 = "testaccept-ignores-expiry-of-ancestor"
 
 
 def norm_obs(o):
@@ -26,11 +30,15 @@ def norm_obs(o):
                 entries=sorted([dict(t=e["t"], fee=e["fee"], mfee=e["mfee"], vsize=e["vsize"], parents=sorted(e["parents"]),
                                      children=sorted(e["children"])) for e in o["entries"]], key=lambda e: e["t"]),
                 deltas=sorted(o["deltas"], key=lambda d: d["t"]), tsize=o["tsize"], tfee=o["tfee"], height=o["height"],
-                utxo=sorted(o["utxo"], key=lambda c: (c["t"], c["i"])))
+                utxo=sorted(o["utxo"], key=lambda c: (c["t"], c["i"])),
+                minfee=o["minfee"], unb=sorted(o["unb"]), times=sorted(o["times"], key=lambda d: d["t"]))
 
 
 def norm_res(r):
-    return dict(ok=r["ok"], why=r["why"], evict=sorted(r["evict"]), pure=r["pure"])
+    out = dict(ok=r["ok"], why=r["why"], evict=sorted(r["evict"]), pure=r["pure"])
+    if "txr" in r:
+        out["txr"] = [dict(k=x["k"], why=x["why"]) for x in r["txr"]]
+    return out
 
 
 def prepare(ctx, binary, uni, mucfg):
@@ -39,17 +47,38 @@ def prepare(ctx, binary, uni, mucfg):
     if (uni, mucfg) in cache:
         return cache[(uni, mucfg)]
     tag = "%s_%s" % (uni, mucfg[:-4])
-    r = ctx.tlc(SPEC, "MU_" + uni, mucfg, name="MU_" + tag, workers=1)
-    rows = [x for x in vflib.load_emitted(r.emit_path) if "universe" in x]
-    if not rows:
-        raise vflib.InfraError("module MU_%s did not print its universe" % uni)
-    universe = rows[0]
+    # the printed universe is a function of these files only: a JVM start is saved when none of them changed since the last run
+    h = hashlib.sha1()
+    for f in ("Uni_%s.tla" % uni, "UniCommon.tla", "MU_%s.tla" % uni, mucfg, os.path.join("..", "lib", "VF.tla")):
+        h.update(open(os.path.join(vflib.SPECS, SPEC, f), "rb").read())
+    cdir = os.path.join(vflib.BUILD, "cache", "mempool")
+    os.makedirs(cdir, exist_ok=True)
+    cpath = os.path.join(cdir, "universe_%s_%s.json" % (tag, h.hexdigest()[:16]))
+    if os.path.exists(cpath):
+        universe = json.load(open(cpath))
+    else:
+        r = ctx.tlc(SPEC, "MU_" + uni, mucfg, name="MU_" + tag, workers=1)
+        rows = [x for x in vflib.load_emitted(r.emit_path) if "universe" in x]
+        if not rows:
+            raise vflib.InfraError("module MU_%s did not print its universe" % uni)
+        universe = rows[0]
+        json.dump(universe, open(cpath + ".tmp%d" % os.getpid(), "w"))
+        os.replace(cpath + ".tmp%d" % os.getpid(), cpath)
     upath = os.path.join(ctx.work, "universe_%s.json" % tag)
     json.dump(universe, open(upath, "w"))
     mpath = ctx.run_driver(binary, "measure", args=["-", upath], out_name=os.path.join(ctx.work, "measure_%s.ndjson" % tag))
     meas = [json.loads(l) for l in open(mpath) if l.startswith("{")]
     if len(meas) != len(universe["universe"]):
         raise vflib.InfraError("measure step returned %d transactions for a universe of %d" % (len(meas), len(universe["universe"])))
+    # glue sanity: the dust thresholds the specification assumes per script class (Mempool!DustLimit) are the node's
+    spec_dust = dict(key=576, wtrue=330, wdrop=330, wbig=330, anchor=240, opret=0, true=474, nopx=477, fail=480, cltv=489)
+    for t, T in enumerate(universe["universe"], 1):
+        if T.get("twin"):
+            continue
+        for i, o in enumerate(T["outs"]):
+            if o["cls"] in spec_dust and meas[t - 1]["dustlimit"][i] != spec_dust[o["cls"]]:
+                raise vflib.InfraError("universe %s tx %d output %d (%s): node's dust threshold %s, specification's %s" % (
+                    uni, t, i + 1, o["cls"], meas[t - 1]["dustlimit"][i], spec_dust[o["cls"]]))
     # glue sanity: the fee the node computes from the real transactions is inputs - outputs of the universe definition
     val = {(0, i + 1): c["v"] for i, c in enumerate(universe["base"])}
     for t, T in enumerate(universe["universe"], 1):
@@ -57,7 +86,7 @@ def prepare(ctx, binary, uni, mucfg):
             val[(t, i)] = o["v"]
     for t, T in enumerate(universe["universe"], 1):
         ins = [tuple(i["op"]) for i in T["ins"]]
-        if all(k in val for k in ins):
+        if all(k in val for k in ins) and not T.get("twin"):
             fee = sum(val[k] for k in ins) - sum(o["v"] for o in T["outs"])
             if fee != meas[t - 1]["fee"]:
                 raise vflib.InfraError("universe %s tx %d: measured fee %s differs from the definition's %s" % (uni, t, meas[t - 1]["fee"], fee))
@@ -136,8 +165,39 @@ def check_deviations(ctx, prop, res, uni, cfg, mpath, args):
         binary = res["binary"]
         r2 = ctx.run_harness(binary, "strict", tests, args=args, name="twin")
         ctx.extra["twin_checks"] = ctx.extra.get("twin_checks", 0) + len(tests)
-        vflib.report_mismatches(ctx, binary, "strict", r2, args=args, adapter="mempool", what_prefix="test-accept twin: ",
-                                key_fn=lambda m, case: "twin:%s" % vflib.digest([m.get("action"), m.get("why")]))
+        vflib.report_mismatches(ctx, binary, "strict", r2, args=args, adapter="mempool", what_prefix="test-accept twin: ", key_fn=twin_key)
+
+
+def twin_key(m, case):
+    """Stable key of the one known disagreement: test-accept says ok, the submission answers "mempool full" although the pool is far
+    from its limit (the adapter's twin step agrees by itself when the pool is full)."""
+    if "test-accept: ok / submit: mempool full" in (m.get("why") or ""):
+        return FINDING_C28
+    return "twin:%s" % vflib.digest([m.get("action"), m.get("why")])
+
+
+def confirm_expiry_finding(ctx, binary, stats, limit=4):
+    """C28 as stated is contradicted where LimitMempoolSize expires an in-pool ancestor of the new transaction: the model predicts
+    submit -> "mempool full" from states where its test-accept verdict is ok and nothing was trimmed. Those transitions are looked up
+    in the replayed paths and the node is asked for both verdicts from that state; a confirmed disagreement is reported under one key."""
+    tests, seen = [], set()
+    for p in stats["paths"]:
+        for k, s in enumerate(p["steps"]):
+            if s["a"][0] == "submit" and s["r"]["why"] == "mempool full":
+                key = vflib.canon([p["steps"][k - 1]["m"] if k else p["init_m"], s["a"][1]])
+                if key in seen:
+                    continue
+                seen.add(key)
+                tests.append(dict(init=p["init"], steps=[dict(a=x["a"], r=None, exp=x["exp"]) for x in p["steps"][:k]] +
+                                  [dict(a=["twin", s["a"][1]], r=dict(agree=True, pure=True), exp=None)]))
+    ctx.extra["submit_mempool_full_without_trim_in_model"] = ctx.extra.get("submit_mempool_full_without_trim_in_model", 0) + len(tests)
+    if not tests:
+        return 0
+    tests = tests[:limit]
+    r = ctx.run_harness(binary, "strict", tests, args=stats["args"], name="expiry_twin")
+    ctx.extra["twin_checks"] = ctx.extra.get("twin_checks", 0) + len(tests)
+    vflib.report_mismatches(ctx, binary, "strict", r, args=stats["args"], adapter="mempool", what_prefix="test-accept twin: ", key_fn=twin_key)
+    return len(r["mismatches"])
 
 
 def path_cover(g, max_len=300):
@@ -192,7 +252,24 @@ def strip_case(case):
     return dict(init=case["init"], steps=[dict(a=s["a"], r=s["r"], exp=s["exp"]) for s in case["steps"]])
 
 
-def run_scenario(ctx, binary, prop, uni, cfg, mucfg="MU_std.cfg", nontrivial=None, timeout=3000):
+def judge_usage(ctx, res):
+    """C27: the node's DynamicMemoryUsage after every replayed step against its max_size_bytes: the adapter reports the maximum per
+    test; TLC evaluates the clause (module UsageObs) on the distinct pairs."""
+    pend = ctx.__dict__.setdefault("_mp_usage_pairs", set())
+    if res is not None:
+        pend |= {(i["max_usage"], i["limit"]) for i in res["infos"] if "max_usage" in i}
+        return                                # judged once, at the end of the check (judge_usage(ctx, None))
+    pairs = sorted(pend)
+    ctx.extra["max_observed_usage_by_limit"] = {str(l): max(u for u, l2 in pairs if l2 == l) for l in sorted({p[1] for p in pairs})}
+    if not pairs:
+        return
+    lines = [dict(usage=u, limit=l) for u, l in pairs]
+    for i, inv in vflib.judge(ctx, SPEC, "UsageObs", "UsageObs.cfg", lines, name="usage"):
+        ctx.violation("usage:%s" % vflib.digest(lines[i]), "mempool usage %s bytes exceeds the limit of %s bytes after a replayed step" % (lines[i]["usage"], lines[i]["limit"]),
+                      dict(adapter="mempool", observation=lines[i], invariant=inv))
+
+
+def run_scenario(ctx, binary, prop, uni, cfg, mucfg="MU_std.cfg", nontrivial=None, timeout=3000, always_judge=False):
     """Model-check scenario <cfg> of universe <uni>, replay every transition on the node, classify deviations for <prop>.
     Returns statistics: per (action, why) counts and the set of Rule 4 margins seen on replacement attempts."""
     upath, mpath, universe, meas = prepare(ctx, binary, uni, mucfg)
@@ -206,11 +283,20 @@ def run_scenario(ctx, binary, prop, uni, cfg, mucfg="MU_std.cfg", nontrivial=Non
         full[vflib.canon(e["tk"])] = e["t"]
         if e.get("l") == 1:
             full.setdefault(vflib.canon(e["fk"]), e["f"])
-    stats = dict(per=collections.Counter(), m4=set(), m3=set(), nclusters=set(), replaced=collections.Counter())
+    stats = dict(per=collections.Counter(), m4=set(), m3=set(), nclusters=set(), replaced=collections.Counter(), txr=collections.Counter(),
+                 trims=0, tight=0, paths=[], upath=upath, mpath=mpath)
+    for e in recs:
+        if e.get("l") == 1 and "opts" in e["f"]:
+            o = e["f"].pop("opts")
+            if any(universe["opts"].get(k) != v for k, v in o.items()):
+                raise vflib.InfraError("%s assumes node options %s but the universe was prepared with %s (%s)" % (cfg, o, universe["opts"], mucfg))
     for e in recs:
         e["f"] = full[vflib.canon(e["fk"])]
         dbg = e["r"].pop("dbg")
+        stats["trims"] += len(e["r"].get("trims", ())); stats["tight"] += bool(e["r"].get("tight"))
         e["r"] = norm_res(e["r"])
+        for x in e["r"].get("txr", ()):
+            stats["txr"][(x["k"], x["why"])] += 1
         e["r"]["rbf"] = bool(e["a"][0] in ("submit", "test") and dbg["nc"] > 0)      # a replacement attempt (bookkeeping for the evidence only)
         stats["per"][(e["a"][0], e["r"]["why"])] += 1
         if e["a"][0] == "submit" and dbg["nc"] > 0:
@@ -239,7 +325,14 @@ def run_scenario(ctx, binary, prop, uni, cfg, mucfg="MU_std.cfg", nontrivial=Non
     ctx.extra["replayed_steps"] = ctx.extra.get("replayed_steps", 0) + int(res["summary"]["steps"])
     vflib.report_mismatches(ctx, binary, "replay", res, args=args, adapter="mempool", what_prefix="Mempool %s: " % cfg)
     check_deviations(ctx, prop, res, uni, cfg, mpath, args)
+    if always_judge:
+        judge_usage(ctx, res)
     ctx.extra.setdefault("transitions_per_action_and_result", {})[cfg] = {"%s/%s" % k: v for k, v in sorted(stats["per"].items())}
+    if stats["tight"]:
+        raise vflib.InfraError("%s: %d trim decisions of the model are closer to the size limit than the margin: re-shape the universe" % (cfg, stats["tight"]))
+    stats["paths"] = paths
+    stats["args"] = args
+    stats["meas"] = meas
     return stats
 
 
